@@ -285,7 +285,7 @@ def stress_shapes(limit=4096):
         ('wiki-open', 0, rep('[[a|')),
         ('xwiki-macro', 0, rep('{{a}}\n')),
         ('curly', 0, rep('{')),
-        ('verb-all-delims', 0, '`' + '|!"\'=+#$%&()*,-./:;<>?@[\\]^_{}~0123456789' + '`'),
+        ('verb-all-delims', 0, '`` ' + '|!"\'=+#$%&()*,-./:;<>?@[\\]^_`{}~0123456789' + ' ``'),
     ]
     for name, d, text in fam:
         yield name, d, text
